@@ -140,6 +140,7 @@ class GenB:
         self.have_si = "kilo" in self.model.prefix_names
         self.pairs = []
         self.shipped_tokens = set()
+        self.extreme = set()
         self.decl_count = {}
         self.first_decl = {}
         self.used_as_expr = set()
@@ -173,9 +174,17 @@ class GenB:
                 continue
             if d and d[0] != 0:
                 continue
+            size = float(Fraction(self.snap["shipped_sizes"][t]))
+            moderate = 1e-25 <= abs(size) <= 1e25
+            if self.prop == "C05" and not moderate:
+                # composite round-trip/route checks multiply several extreme sizes (planck,
+                # stoney, hubble units): float under/overflow would decide, not the planner
+                continue
             self.unit_ref[t] = ["u", t]
             self.by_dim.setdefault(d, []).append(t)
             self.shipped_tokens.add(t)
+            if not moderate:
+                self.extreme.add(t)
         dims = [d for d, ts in self.by_dim.items() if d and len(ts) >= 1]
         units = []
         for _ in range(rng.choice([0, 1, 2, 3])):
@@ -288,7 +297,8 @@ class GenB:
             if x == 0:
                 continue
             fv = tuple([0] * i + [1])
-            cands = self.by_dim.get(M.d_norm(fv), [])
+            cands = [c for c in self.by_dim.get(M.d_norm(fv), []) if c not in self.extreme] or \
+                self.by_dim.get(M.d_norm(fv), [])
             if not cands:
                 return None
             # possibly split the exponent over two different units of that dimension
